@@ -430,6 +430,10 @@ alternatives:
 			// does not write through to the matched value
 			// (copyValue refuses functions, a cell of its own does for them)
 			bound := NewCell(value.Value)
+			// (a method looked up on a receiver remembers that receiver so that
+			// assigning to recv.method stores a member; the bound name is a
+			// variable of its own, assigning to it must not do that)
+			bound.Value.ParentObj = nil
 			if value.Value.Tag != ValueFn && value.Value.Tag != ValueNativeFn {
 				if _, err := copyValue(value, bound); err != nil {
 					return false, nil, e.error(expr.Token(), err.Error())
